@@ -201,9 +201,18 @@ theorem valid_let_intro : (pool[32]'(by decide)).Valid := by
 theorem valid_let_let_subst : (pool[33]'(by decide)).Valid := by
   intro ρ _ env; simp only [pool, List.getElem_cons_succ, List.getElem_cons_zero, evalP]
 
+theorem valid_sum2_const : (pool[34]'(by decide)).Valid := by
+  intro ρ h env
+  simp only [pool, List.getElem_cons_succ, List.getElem_cons_zero] at h ⊢
+  have hx : FreeIn ρ "x" "c" := h ("x", "c") (by simp)
+  have hy : FreeIn ρ "y" "c" := h ("y", "c") (by simp)
+  have hc : ∀ v w, ρ "c" ((env.set "x" v).set "y" w) = ρ "c" env := fun v w => by rw [hy (env.set "x" v) w, hx env v]
+  simp only [evalP, hc, ofNat3]
+  rw [sum7_const, sum7_const]
+
 theorem pool_valid : ∀ r ∈ pool, r.Valid := by
   intro r hr
-  have hlen : pool.length = 34 := by decide
+  have hlen : pool.length = 35 := by decide
   obtain ⟨i, hi, rfl⟩ := List.getElem_of_mem hr
   rw [hlen] at hi
   interval_cases i
@@ -241,6 +250,7 @@ theorem pool_valid : ∀ r ∈ pool, r.Valid := by
   · exact valid_sum_infactor_var
   · exact valid_let_intro
   · exact valid_let_let_subst
+  · exact valid_sum2_const
 
 /-- the deliberately invalid rules are indeed invalid (witness: constant interpretations) -/
 theorem bad_sum_const_invalid : ¬ (badPool[1]'(by decide)).Valid := by
